@@ -134,6 +134,11 @@ pub fn sharks_share_verdict(s: &[u8]) -> (Verdict, Option<Vec<u8>>) {
       return (Verdict::MustReject, None);
     }
   }
+  // an evaluation point of zero is never produced by an honest dealer; a decoder may
+  // accept it (it is a field element) or refuse it (it would carry the secret itself)
+  if s[..FE].iter().all(|b| *b == 0) {
+    return (Verdict::May, Some(s[..n * FE].to_vec()));
+  }
   (Verdict::MustAccept, Some(s[..n * FE].to_vec()))
 }
 
@@ -153,8 +158,8 @@ pub fn share_verdict(s: &[u8]) -> (Verdict, Option<Vec<u8>>) {
   canon.extend_from_slice(&chunk(&s[f.c.clone()]));
   canon.extend_from_slice(&chunk(&s[f.d.clone()]));
   canon.extend_from_slice(&s[f.j.clone()]);
-  if f.trailing > 0 {
-    // bytes after the 64-byte tag inside the share: policy not pinned
+  if f.trailing > 0 || vs == Verdict::May {
+    // bytes after the 64-byte tag inside the share (or x = 0): policy not pinned
     (Verdict::May, Some(canon))
   } else {
     (Verdict::MustAccept, Some(canon))
